@@ -46,6 +46,34 @@ func c06Gadget(width uint64, pad int) gad.Fn {
 	}
 }
 
+// c06QE: the extension-element range check (two Goldilocks range checks) on a pair of values.
+func c06QE(mode eng.Mode, x0, x1 *big.Int) (string, string) {
+	fn := func(api frontend.API, in []frontend.Variable) []frontend.Variable {
+		gl.New(api).RangeCheckQE(gl.QuadraticExtensionVariable{glv(in[0]), glv(in[1])})
+		return nil
+	}
+	want := inRange(x0, 0) && inRange(x1, 0)
+	res, _ := gad.Run(eng.Options{Mode: mode}, []*big.Int{x0, x1}, fn)
+	if res.Outcome == eng.Refused {
+		return "qe-refused", fmt.Sprintf("RangeCheckQE(%s, %s) refused under %s: %s", x0, x1, mode, fmtRes(res))
+	}
+	if want && res.TolerantHints > 0 {
+		return "qe-hint-failed", fmt.Sprintf("RangeCheckQE(%s, %s): shipped hint failed on canonical values", x0, x1)
+	}
+	if (res.Outcome == eng.Accept) != want {
+		return "qe-exact", fmt.Sprintf("RangeCheckQE(%s, %s) under %s: got %v, both coordinates canonical = %v (%s)", x0, x1, mode, res.Outcome, want, fmtRes(res))
+	}
+	if !want {
+		// dishonest attempts: gnark's digit hint lumped, unconstrained division wires chosen by the prover
+		for _, opt := range []eng.Options{{Mode: mode, LumpBits: true}, {Mode: mode, FreeDiv: big.NewInt(1)}} {
+			if r2, _ := gad.Run(opt, []*big.Int{x0, x1}, fn); r2.Outcome == eng.Accept {
+				return "qe-dishonest", fmt.Sprintf("RangeCheckQE(%s, %s) under %s is satisfiable with dishonest auxiliary values", x0, x1, mode)
+			}
+		}
+	}
+	return "", ""
+}
+
 type c06Config struct {
 	Mode  eng.Mode
 	Force bool
@@ -412,11 +440,20 @@ func gnarkWidthCriticalSizes(w, padKind int, plonk bool, max int) []int {
 func TestC06(t *testing.T) {
 	r := rec.New("C06")
 	defer r.Flush()
-	r.Rule("value v (anchors 0, 2^16, 2^32, 2^48, 2^63, 2^64-2^32, p, 2^64, 2^n-1.., r with offsets -2..2; random of every bit length; random inside the range; field fractions y/2^k mod r with small y) x gadget {RangeCheck, RangeCheckWithMaxBits(n), n in 1..64,96,128,144,192} x configuration {engine: native / plain / commit(padded to 70k checks), each also with USE_BIT_DECOMPOSITION_RANGE_CHECK; compiled R1CS and SCS built for native-range-checker wrapper / commit / forced bits; gnark test engine}; out-of-range values are also tried with dishonest limb hints and a dishonest bit-decomposition hint; 'populations': one w-bit check (w in 16,32,48,64) plus 0..72000 padding checks compiled for R1CS and SCS under the commit checker - circuits the chip refuses are counted, circuits that compile must be exact at 2^w-1, 2^(w+j), 2^(w+j)+1; sizes are rapid-drawn and additionally swept with one size per geometric bucket of ratio 1.15 (thorough 1.04) per builder and padding kind, and at every size where gnark's limb-width optimiser (cost formulas re-implemented from gnark's source) changes its choice or is tied, +-1.  Oracle: accepted <=> v < p (resp. v < 2^n); commit-mode widths not multiple of 16 may be refused.  Non-trivial = value within 2 of a range/field boundary or a dishonest hint; distinct = (v, n, configuration, hint).")
+	r.Rule("value v (anchors 0, 2^16, 2^32, 2^48, 2^63, 2^64-2^32, p, 2^64, 2^n-1.., r with offsets -2..2; random of every bit length; random inside the range; field fractions y/2^k mod r with small y) x gadget {RangeCheck, RangeCheckQE on pairs, RangeCheckWithMaxBits(n), n in 1..64,96,128,144,192} x configuration {engine: native / plain / commit(padded to 70k checks), each also with USE_BIT_DECOMPOSITION_RANGE_CHECK; compiled R1CS and SCS built for native-range-checker wrapper / commit / forced bits; gnark test engine}; out-of-range values are also tried with dishonest limb hints and a dishonest bit-decomposition hint; 'populations': one w-bit check (w in 16,32,48,64) plus 0..72000 padding checks compiled for R1CS and SCS under the commit checker - circuits the chip refuses are counted, circuits that compile must be exact at 2^w-1, 2^(w+j), 2^(w+j)+1; sizes are rapid-drawn and additionally swept with one size per geometric bucket of ratio 1.15 (thorough 1.04) per builder and padding kind, and at every size where gnark's limb-width optimiser (cost formulas re-implemented from gnark's source) changes its choice or is tied, +-1.  Oracle: accepted <=> v < p (resp. v < 2^n); commit-mode widths not multiple of 16 may be refused.  Non-trivial = value within 2 of a range/field boundary or a dishonest hint; distinct = (v, n, configuration, hint).")
 	r.Assume("gnark v0.9.1 builders/solver and std/rangecheck as shipped", "the native-range-checker builder wrapper implements Check by bit decomposition inside the wrapped builder")
 
 	var rp c06Replay
 	if is, err := rec.LoadReplay(&rp); is {
+		if err == nil && rp.Backend == "qe" {
+			k, d := c06QE(eng.Mode(rp.Mode), bs(rp.V), bs(rp.SubstV))
+			r.Case("replay", true, fmt.Sprint(rp), func() any { return rp })
+			if k != "" {
+				r.Fail(t, "C06/"+k, rp, "%s", d)
+			}
+			r.Done()
+			return
+		}
 		if err == nil && rp.Backend == "population" {
 			var a c06Pop
 			json.Unmarshal([]byte(rp.Config), &a)
@@ -505,6 +542,23 @@ func TestC06(t *testing.T) {
 		}
 	})
 	r.Extra("selected_range_checker_type_by_engine_config", types)
+	// A'. extension elements: pairs of values through RangeCheckQE (what the verifier applies to openings)
+	rapidCheck(t, "qe", tierN(1500, 60000), func(rt *rapid.T) {
+		pick := func(n string) *big.Int {
+			if rapid.IntRange(0, 2).Draw(rt, n+"kind") == 0 {
+				return bu(genGL().Draw(rt, n)) // canonical, edge-heavy (p-1, 2^32-1, ...)
+			}
+			return genRCValue(0).Draw(rt, n)
+		}
+		x0, x1 := pick("x0"), pick("x1")
+		m := genMode().Draw(rt, "mode")
+		r.Case("eng-qe/"+m.String(), nearBoundary(x0, 0) || nearBoundary(x1, 0), fmt.Sprint("qe", m, x0, x1), func() any {
+			return map[string]any{"gadget": "RangeCheckQE", "mode": m.String(), "x0": x0.String(), "x1": x1.String()}
+		})
+		if k, d := c06QE(m, x0, x1); k != "" {
+			r.Fail(rt, "C06/"+k, c06Replay{Backend: "qe", Mode: int(m), V: x0.String(), SubstV: x1.String()}, "%s", d)
+		}
+	})
 
 	// B. compiled constraint systems
 	compWidths := []uint64{0, 1, 8, 16, 31, 32, 33, 63, 64, 96, 144, 192}
